@@ -199,10 +199,12 @@ def run_bench(binary, bench, size, arch, plat, extra, timeout=150):
     return res
 
 
-def run_micro(binary, platform, seed, n, only=-1, timeout=240):
+def run_micro(binary, platform, seed, n, only=-1, timeout=240, profile='', mode='micro'):
     d = tempfile.mkdtemp(prefix='c02m_', dir=os.environ.get('TMPDIR', '/tmp'))
     out = os.path.join(d, 'r.json')
-    cmd = [binary, 'micro', '--seed', str(seed), '--n', str(n), '--platform', platform, '--out', out]
+    cmd = [binary, mode, '--seed', str(seed), '--n', str(n), '--platform', platform, '--out', out]
+    if profile:
+        cmd += ['--profile', profile]
     if only >= 0:
         cmd += ['--only', str(only)]
     rc, log = vlib.run(cmd, cwd=d, timeout=timeout)
@@ -218,7 +220,7 @@ def run_micro(binary, platform, seed, n, only=-1, timeout=240):
 
 def micro_diff(e, t, plat):
     """emulation vs timing result of one generated kernel"""
-    for name in ('out', 'out2'):
+    for name in ('out', 'out2', 'scr'):
         if e[name] != t[name]:
             i = next(i for i, (x, y) in enumerate(zip(e[name], t[name])) if x != y)
             return 'buffer %s differs at element %d: emu 0x%08x %s 0x%08x' % (name, i, e[name][i], plat, t[name][i])
@@ -428,54 +430,100 @@ def main(argv):
                 distinct.add(vlib.case_hash(['bench', r['bench'], r['size'], r['arch'], r['platform']]))
 
     # ---- generated micro-kernels on whole platforms (validation only)
+    # streams: (name, harness mode, profile, kernels quick/thorough, timing platforms)
+    #   general : all kernel families on the stock platforms and on a one-CU R9 Nano
+    #   lds     : LDS kernels with 4-24 work-groups of 1-4 wavefronts on one CU / one shader array
+    #   seq     : blocking launch sequences reader / writer / reader ... without memory copies
+    STREAMS = [
+        ('general', 'micro', '', 40, 150, ['r9nano', 'mi300a', 'r9nano:1x1']),
+        ('lds', 'micro', 'lds', 12, 40, ['r9nano:1x1', 'r9nano:1x2', 'mi300a:1x1']),
+        ('seq', 'seq', '', 10, 40, ['r9nano', 'mi300a', 'r9nano:1x1', 'r9nano:1x4']),
+    ]
     if replay is None or replay.get('mode') == 'micro':
         mseed = replay['seed'] if replay else vlib.seed()
-        mn = replay['n'] if replay else (150 if thorough else 40)
-        only = replay['index'] if replay else -1
-        plats = ['emu', 'r9nano', 'mi300a']
-        with ThreadPoolExecutor(max_workers=3) as ex:
-            mres = dict(zip(plats, ex.map(lambda p: run_micro(binary, p, mseed, mn, only), plats)))
+        streams = STREAMS
+        if replay:
+            streams = [st for st in STREAMS if st[0] == replay.get('stream', 'general')]
+        jobs = []
+        for name, hmode, profile, nq, nt, plats in streams:
+            mn = replay['n'] if replay else (nt if thorough else nq)
+            only = replay['index'] if replay else -1
+            if replay and replay.get('platform') in plats:
+                plats = [replay['platform']]
+            for p in ['emu'] + plats:
+                jobs.append((name, hmode, profile, mn, only, p))
+        with ThreadPoolExecutor(max_workers=8) as ex:
+            results = list(ex.map(lambda j: run_micro(binary, j[5], mseed, j[3], j[4], profile=j[2], mode=j[1]), jobs))
         micro_bad = []
-        ref, elog = mres['emu']
-        if ref is None:
-            micro_bad.append((-1, 'emu', 'the emulation platform did not finish the kernel stream: ' + elog[-400:]))
-        else:
-            for p in plats[1:]:
-                got, log = mres[p]
-                if got is None:
-                    # find the kernel that stops the platform
-                    culprit = -1
-                    for k in ref:
-                        g1, _ = run_micro(binary, p, mseed, mn, k['index'], timeout=60)
-                        if g1 is None:
-                            culprit = k['index']
-                            break
-                    micro_bad.append((culprit, p, 'platform %s does not finish (panic or hang) on generated kernel %d which emulation completes: %s'
-                                      % (p, culprit, log[-300:])))
-                    continue
-                for e, t in zip(ref, got):
-                    dd = micro_diff(e, t, p)
-                    if dd:
-                        micro_bad.append((e['index'], p, 'generated kernel %d (%s, %d x %d work-items): %s' % (
-                            e['index'], ','.join(e['features'] or []), e['num_wg'], e['wg_size'], dd)))
+        refs = {}
+        for j, (res, log) in zip(jobs, results):
+            if j[5] == 'emu':
+                refs[j[0]] = res
+                if res is None:
+                    micro_bad.append((j, -1, 'the emulation platform did not finish stream %s: %s' % (j[0], log[-400:])))
+        ntr = 0
+        for j, (got, log) in zip(jobs, results):
+            name, hmode, profile, mn, only, p = j
+            ref = refs.get(name)
+            if p == 'emu' or ref is None:
+                continue
+            if got is None:
+                culprit = -1
+                for k in ref:
+                    g1, _ = run_micro(binary, p, mseed, mn, k['index'], timeout=90, profile=profile, mode=hmode)
+                    if g1 is None:
+                        culprit = k['index']
                         break
-        nk = len(ref or [])
-        rep.obligation('generated micro-kernels (validation, not proof): %d kernels, buffers and per-wavefront instruction sequences agree on r9nano and mi300a' % nk, not micro_bad)
-        rep.coverage['micro_kernels'] = nk
-        rep.coverage['micro_wavefront_traces_compared'] = sum(len(k['traces']) for k in (ref or [])) * 2
-        rep.coverage['micro_features'] = dict(collections.Counter(f for k in (ref or []) for f in (k['features'] or [])))
-        total += nk * 3
-        for k in (ref or []):
-            distinct.add(vlib.case_hash(['micro', k['words'], k['wg_size'], k['num_wg']]))
-        for idx, p, text in micro_bad[:1]:
-            words = next((k['words'] for k in (ref or []) if k['index'] == idx), None)
-            rep.violation({'property': PROP, 'mode': 'micro', 'seed': mseed, 'n': mn, 'index': idx, 'platform': p, 'what': text,
+                micro_bad.append((j, culprit, 'platform %s does not finish (panic or hang) on generated %s #%d which emulation completes: %s'
+                                  % (p, 'sequence' if hmode == 'seq' else 'kernel', culprit, log[-300:])))
+                continue
+            for e, t in zip(ref, got):
+                if hmode == 'seq':
+                    dd = None
+                    for nm in ('out', 'x'):
+                        if e[nm] != t[nm]:
+                            i = next(i for i, (x, y) in enumerate(zip(e[nm], t[nm])) if x != y)
+                            per = 128 * e['num_wg']
+                            where = ('launch %d, work-item %d, %s-load result' % (i // per, (i % per) // 2, 'scalar' if i % 2 else 'vector')) if nm == 'out' else 'x[%d]' % i
+                            dd = 'blocking launch sequence %s (%d work-groups): %s: emu 0x%08x %s 0x%08x' % (
+                                ''.join('W' if st['write'] else 'R' for st in e['steps']), e['num_wg'], where, e[nm][i], p, t[nm][i])
+                            break
+                else:
+                    dd = micro_diff(e, t, p)
+                    ntr += len(e['traces'])
+                    if dd:
+                        dd = 'generated kernel %d (%s, %d x %d work-items): %s' % (
+                            e['index'], ','.join(e['features'] or []), e['num_wg'], e['wg_size'], dd)
+                if dd:
+                    micro_bad.append((j, e['index'], dd))
+                    break
+        nk = sum(len(r or []) for r in refs.values())
+        rep.obligation('generated micro-kernels and launch sequences (validation, not proof): %d programs x platforms, buffers and per-wavefront instruction sequences agree with emulation' % nk, not micro_bad)
+        rep.coverage['micro_programs'] = {k: len(v or []) for k, v in refs.items()}
+        rep.coverage['micro_platform_runs'] = len(jobs)
+        rep.coverage['micro_wavefront_traces_compared'] = ntr
+        rep.coverage['micro_features'] = dict(collections.Counter(
+            f for name in ('general', 'lds') for k in (refs.get(name) or []) for f in (k['features'] or [])))
+        total += sum(len(r or []) for (r, _l) in results)
+        for name in ('general', 'lds'):
+            for k in (refs.get(name) or []):
+                distinct.add(vlib.case_hash(['micro', k['words'], k['wg_size'], k['num_wg']]))
+        for k in (refs.get('seq') or []):
+            distinct.add(vlib.case_hash(['seq', k['steps'], k['num_wg']]))
+        for j, idx, text in micro_bad[:1]:
+            name, hmode, profile, mn, only, p = j
+            words = None
+            if hmode == 'micro':
+                words = next((k['words'] for k in (refs.get(name) or []) if k['index'] == idx), None)
+            rep.violation({'property': PROP, 'mode': 'micro', 'stream': name, 'seed': mseed, 'n': mn, 'index': idx, 'platform': p, 'what': text,
                            'words': ['%08x' % w for w in words] if words else None,
-                           'disassemble_cmd': 'build/bin*/c02 micro --seed %d --n %d --only %d --print' % (mseed, mn, idx),
+                           'disassemble_cmd': ('build/bin*/c02 micro --seed %d --n %d --only %d --print%s' % (mseed, mn, idx, ' --profile ' + profile if profile else ''))
+                           if hmode == 'micro' else None,
                            'replay_cmd': './check C02 --replay <this file>'}, text=text)
-        if ref:
-            rep.samples.append({'mode': 'micro', 'kernel': ref[0]['index'], 'features': ref[0]['features'],
-                                'words': ['%08x' % w for w in ref[0]['words'][:24]] + ['...']})
+        g = refs.get('general')
+        if g:
+            rep.samples.append({'mode': 'micro', 'kernel': g[0]['index'], 'features': g[0]['features'],
+                                'words': ['%08x' % w for w in g[0]['words'][:24]] + ['...']})
     phase('e2e done')
     rep.coverage.update({
         'evaluations': total,
